@@ -5,6 +5,7 @@ import ast
 import re
 
 from vk import astx
+from vk.report import shape_rule
 from vk.algebra import Normalizer, bool_key, literals, spec_rat, NotClosedForm
 from vk.loader import AnalysisError
 
@@ -91,6 +92,7 @@ def r1_interval(ctx):
               init, cand[0] if cand else init.node, "candidates = all given keys (zero and non-zero)", "", "candidate set is not taken from the full input interval")
 
 
+@shape_rule
 def r2_combine(ctx):
     prog = ctx.prog
     f = prog.find_func("combine_preference_intervals")
@@ -115,9 +117,12 @@ def r2_combine(ctx):
     good = False
     if len(upd) == 1:
         tgt = astx.u(upd[0].targets[0])
-        k = Normalizer(f.node, inline=True, no_inline=[tgt.split(".")[0]]).key(upd[0].value)
+        Nz = Normalizer(f.node, inline=True, no_inline=[tgt.split(".")[0]])
+        v = upd[0].value
+        k = f"{Nz.key(v.left)} | {Nz.key(v.right)}" if isinstance(v, ast.BinOp) and isinstance(v.op, ast.BitOr) else Nz.key(v)
         # the constructor's own zero set (supports that became 0 through a 0 proportion) united with every input's zero set
-        good = k in (f"{tgt}.union(frozenset.union(*[_b0.zero_cands for _b0 in {ivs}]))", f"frozenset.union(*[_b0.zero_cands for _b0 in {ivs}]).union({tgt})")
+        others = f"frozenset.union(*[_b0.zero_cands for _b0 in {ivs}])"
+        good = k in (f"{tgt}.union({others})", f"{others}.union({tgt})", f"{tgt} | {others}", f"{others} | {tgt}")
     ctx.check(good, f, upd[0] if upd else f.node, "zero-support candidates of every interval are carried along (union)", "", "zero-candidate union changed")
     rets = [n for n in astx.walk_own(f.node) if isinstance(n, ast.Return)]
     pi_def = astx.unique_def(f.node, astx.u(rets[0].value)) if rets and isinstance(rets[0].value, ast.Name) else None
@@ -125,6 +130,7 @@ def r2_combine(ctx):
               "the result is a PreferenceInterval of the combined supports (renormalised by its constructor)", "", "result construction changed")
 
 
+@shape_rule
 def r3_name_bt(ctx):
     prog = ctx.prog
     f = prog.find_func("name_BradleyTerry._make_pow")
@@ -178,6 +184,7 @@ def r3_name_bt(ctx):
               tb[0] if tb else init.node, "one BT table per bloc from that bloc's combined interval", "", "pdfs_by_bloc wiring changed")
 
 
+@shape_rule
 def r4_slate_bt(ctx):
     prog = ctx.prog
     f = prog.find_func("slate_BradleyTerry._compute_ballot_type_dist")
